@@ -79,15 +79,16 @@ def gen_config_programs(tier: str, rnd: random.Random) -> list[dict]:
     names = list(ET_BLOCKS)
     subsets = [c for k in range(len(names) + 1) for c in itertools.combinations(names, k)]
     rated_classes = [5000, 15000, 25000]
+    rep = set(et_tags("quick"))
     for tag in et_tags(tier):
         for rated in rated_classes:
             subs = subsets
-            if quick:
+            if quick or tag not in rep:
                 # all subsets for one power class per tag, the singletons and the full set for the others
                 if rated != rated_classes[hash(tag) % 3]:
                     subs = [c for c in subsets if len(c) <= 1 or len(c) == len(names)]
             for sub in subs:
-                bat_seqs = [(1, 1, 1), (0, 1, 0)] if (quick and len(sub) > 1) else [(1, 1, 1), (0, 0, 0), (0, 1, 0), (1, 0, 1)]
+                bat_seqs = [(1, 1, 1), (0, 1, 0)] if ((quick or tag not in rep) and len(sub) > 1) else [(1, 1, 1), (0, 0, 0), (0, 1, 0), (1, 0, 1)]
                 for bs in bat_seqs:
                     progs.append(cfg_program("ET", tag, rated, sub, bs, rnd, 502 if (len(progs) % 5 == 0) else 8899))
     for tag in dt_tags(tier):
@@ -245,7 +246,21 @@ def check(prop: str, tier: str, seed: int) -> int:
     checks_model.run_inverter_model(run, prop, tier)
     if prop in ("C14", "C15"):
         progs = gen_config_programs(tier, rnd)
-        traces = engine.parallel_map("harness.checks_decode", "run_program_values", progs, procs=16, chunk=8)
+        n = 0
+        CH = 4000                       # bounded memory: run, judge, compare, discard
+        for c0 in range(0, len(progs), CH):
+            part = progs[c0:c0 + CH]
+            traces = engine.parallel_map("harness.checks_decode", "run_program_values", part, procs=16, chunk=8)
+            for tr in traces:
+                if tr["status"] != "ok":
+                    raise engine.MachineryError("program did not finish: " + tr["status"])
+            n += judge_spans(run, traces, own, batch_spans=1200)
+            checks_model.compare_predictions(run, part, traces)
+            del traces
+        run.cov["distinct_nontrivial"] += n
+        run.cov["samples"].append({"program_cfg": progs[len(progs) // 2].get("cfg", {}),
+                                   "calls": [c.get("api", "sim") for c in progs[len(progs) // 2]["calls"]][:12]})
+        return run.finish()
     elif prop == "C16":
         progs = gen_single_programs(tier, rnd)
         traces = engine.parallel_map("harness.checks_inverter", "run_single_program", progs, procs=16, chunk=1)
